@@ -6,7 +6,7 @@
    corresponding [*_checked] lemma fail to compile, i.e. the proof breaks and ./check reports it. *)
 From Coq Require Import List NArith ZArith Bool.
 From Verif Require Import Common.GoStr C31.Untyped C31.Model C31.Proof C31.Props.
-Require Import GenTables GenSpec.
+From Gen Require Import GenTables GenSpec.
 Import ListNotations.
 Open Scope N_scope.
 
